@@ -149,6 +149,61 @@ theorem sort_sorted_partial {σ : St} {fs : List Int} (hv : ValidSt σ fs) (evs 
   refine ⟨r.adv, inv.sorted, hp, ?_⟩
   intro he; rw [he] at hp; simpa using hp
 
+/-- number of `heap.pop()` events of a transcript -/
+def pops : List SortEv → Nat
+  | [] => 0
+  | .pop _ :: evs => pops evs + 1
+  | .cmp .. :: evs => pops evs
+
+theorem sortReplay_pops : ∀ (evs : List SortEv) (s s' : SortSt), sortReplay evs s = .ok s' →
+    s'.out.length = s.out.length + pops evs
+  | [], s, s', h => by simp only [sortReplay, Except.ok.injEq] at h; subst h; simp [pops]
+  | .cmp i j idlt res :: evs, s, s', h => by
+    simp only [sortReplay] at h
+    split at h
+    · cases h
+    · split at h
+      · cases h
+      · have := sortReplay_pops evs _ s' h
+        simpa [pops] using this
+  | .pop m :: evs, s, s', h => by
+    simp only [sortReplay] at h
+    split at h
+    · cases h
+    · split at h
+      · cases h
+      · have := sortReplay_pops evs _ s' h
+        simp only [List.length_append, List.length_cons, List.length_nil] at this
+        simp only [pops]; omega
+
+/-- TERMINATION of `bounds.sort`, as far as it does not depend on the heap's own loops (same heap contract as
+`sort_sorted_partial`: the transcript of comparator calls and pops is accepted by `sortReplay`).
+  (1) every comparator call is a terminating computation (`lt_terminates`: `ltLoop` is total, no fuel) and the calls of
+      the WHOLE sort together perform at most `total σ` successful tightenings: the potential never grows;
+  (2) the drain loop `while heap: yield heap.pop()` runs exactly `pops evs` times, never more than `n` times, and after
+      `n` pops the heap is empty — then the output is the sorted permutation of `sort_sorted_partial`.
+NOT proved (part of the assumed heap contract): that the Fibonacci heap performs finitely many comparator calls per
+`push` / `pop` (C16's heap functions are total, but they take a pure comparator and are not connected to this model). -/
+theorem sort_terminates_partial {σ : St} {fs : List Int} (hv : ValidSt σ fs) (evs : List SortEv) (s' : SortSt)
+    (h : sortReplay evs (sortInit σ) = .ok s') :
+    total s'.σ ≤ total σ ∧
+    s'.out.length = pops evs ∧ pops evs + s'.remaining.length = σ.length ∧
+    (pops evs = σ.length → s'.remaining = [] ∧ s'.out.Perm (List.range σ.length) ∧ s'.out.Pairwise (LE fs)) := by
+  obtain ⟨r, inv⟩ := sortReplay_spec fs evs (sortInit σ) s' (sortInit_inv hv) h
+  have hp := sortReplay_pops evs _ s' h
+  simp only [sortInit, List.length_nil, Nat.zero_add] at hp
+  have hl := inv.perm.length_eq
+  rw [← hv.1] at hl
+  simp only [List.length_append, List.length_range] at hl
+  have hr : total s'.σ ≤ total σ := r.total_le
+  refine ⟨hr, hp, by omega, fun hn => ?_⟩
+  have he : s'.remaining = [] := List.eq_nil_of_length_eq_zero (by omega)
+  exact ⟨he, (sort_sorted_partial hv evs s' h).2.2.2 he, inv.sorted⟩
+
+-- non-vacuity: on `exσ` (total trajectory length 4) the recorded full drain has 3 pops = 3 items
+example : pops [.cmp 1 0 false true, .cmp 2 1 false false, .pop 1, .cmp 0 2 true true, .pop 0, .pop 2] = exσ.length := by
+  decide
+
 -- [audit] non-vacuity: a transcript with real tightening inside the comparisons (item 1 is tightened twice by the first
 -- comparison) and a full drain is accepted by `sortReplay` on `exσ`; output `[1, 0, 2]` (final costs 1, 2, 2).
 example : (match sortReplay [.cmp 1 0 false true, .cmp 2 1 false false, .pop 1, .cmp 0 2 true true, .pop 0, .pop 2]
